@@ -643,6 +643,8 @@ def replay_case(ctx, v):
         check_autodetect(ctx, c["string"])
     elif c["kind"] == "region":
         check_region(ctx, c["language"], c["locale"], c["string"])
+    elif c["kind"] == "region-after-plain":
+        check_region_after_plain(ctx, c["language"], c["locale"], c["string"])
     elif c["kind"] == "region-only":
         from dateparser.data.languages_info import language_locale_dict, language_order
 
